@@ -55,8 +55,8 @@ impl Property for C18 {
     }
     fn cases(&self, tier: Tier) -> u64 {
         match tier {
-            Tier::Quick => 30_000,
-            Tier::Thorough => 1_000_000,
+            Tier::Quick => 40000,
+            Tier::Thorough => 1000000,
         }
     }
     fn watchdog_s(&self) -> u64 {
